@@ -502,12 +502,18 @@ impl MrtInRunner {
 
                 // sequential:
                 
-                let r = Self::process_file(
+                // Each file runs in a task of its own: a file the MRT
+                // parser panics on fails like any other unreadable file
+                // instead of taking this queue loop down with it.
+                let r = match tokio::spawn(Self::process_file(
                     gate,
                     ingresses,
                     self.parent_id,
                     p.clone()
-                ).await.map(|_| p).inspect_err(|e| error!("process_file failed: {e}"));
+                )).await {
+                    Ok(r) => r,
+                    Err(_) => Err(MrtError::other("processing aborted")),
+                }.map(|_| p).inspect_err(|e| error!("process_file failed: {e}"));
                 if let Err(e) = results_tx.send(r) {
                     error!("failed to send result of file {e}")
                 }
